@@ -5,6 +5,7 @@ import (
 	"go/token"
 	"go/types"
 	"sort"
+	"strconv"
 	"strings"
 
 	"verif/third_party/xtools/go/ssa"
@@ -325,14 +326,39 @@ func c20Params(p *core.Prog, r *core.Run, pub *ssa.Function) {
 	// the Split
 	splits := callSites(p, []*ssa.Function{pub}, `strings\.Split`)
 	joins := callSites(p, []*ssa.Function{pub}, `strings\.Join`)
-	if len(splits) != 1 || len(joins) != 1 {
+	// the other way to put the value together again: a strings.Builder that
+	// gets every kept parameter followed by the separator, then the new element
+	var built *ssa.Call
+	var builtW []bWrite
+	if len(joins) == 0 {
+		for _, s := range callSites(p, []*ssa.Function{pub}, `\(\*strings\.Builder\)\.String`) {
+			if c, ok := s.Instr.(*ssa.Call); ok {
+				if ws, ok := builderWrites(p, c); ok && len(ws) >= 3 && built == nil {
+					built, builtW = c, ws
+				}
+			}
+		}
+	}
+	if len(splits) != 1 || len(joins) != 1 && built == nil {
 		r.Check("C20.PARAM", "split-join", false, p.Pos(pub.Pos()), "expected one Split and one Join of the parameter string (found %d, %d)", len(splits), len(joins))
 		return
 	}
-	sp, jn := splits[0], joins[0]
-	sameSep := sp.X.Args[1].Name == jn.X.Args[1].Name && sp.X.Args[1].Name == `" "`
+	sp := splits[0]
+	var jn site
+	joinSep := ""
+	if built == nil {
+		jn = joins[0]
+		joinSep = jn.X.Args[1].Name
+	} else {
+		jn = site{Fn: pub, Instr: built, X: p.X(built)}
+		// [loop: element, separator] ...
+		if builtW[0].loop != nil && builtW[1].loop == builtW[0].loop && builtW[0].part.Val != nil && builtW[1].part.Val == nil && (len(builtW) == 2 || builtW[2].loop == nil) {
+			joinSep = strconv.Quote(builtW[1].part.Lit)
+		}
+	}
+	sameSep := sp.X.Args[1].Name == joinSep && sp.X.Args[1].Name == `" "`
 	onValue := sp.X.Args[0].Op == "field" && sp.X.Args[0].Name == "Value"
-	r.Check("C20.PARAM", "split-join", sameSep && onValue, p.InstrPos(sp.Instr), "the stored value is split and re-joined with the same separator (%s / %s)", sp.X.Args[1].Name, jn.X.Args[1].Name)
+	r.Check("C20.PARAM", "split-join", sameSep && onValue, p.InstrPos(sp.Instr), "the stored value is split and re-joined with the same separator (%s / %s)", sp.X.Args[1].Name, joinSep)
 	// the loop over the parts
 	var hdr *ssa.BasicBlock
 	var body map[*ssa.BasicBlock]bool
@@ -440,8 +466,29 @@ func c20Params(p *core.Prog, r *core.Run, pub *ssa.Function) {
 	r.Check("C20.PARAM", "param-loop:edges", nKeep == 1 && nSkip == 1, p.InstrPos(hdr.Instrs[0]), "one keep edge and one skip edge (found %d, %d)", nKeep, nSkip)
 	// the new element
 	okNew := false
+	isNewValue := func(v *core.Expr) bool {
+		return v.Op == "call" && v.Name == "(*encoding/base64.Encoding).EncodeToString" && v.Args[0].Name == "encoding/base64.StdEncoding" && v.Args[1].Op == "param" && v.Args[1].Name == "p3"
+	}
+	if built != nil {
+		// every kept parameter in order (a full forward range over the list the
+		// parameter loop accumulated), then ech="<value>"
+		el := builtW[0].part.Val
+		overKept := el != nil && el.Op == "index" && len(el.Args) == 2 && el.Args[0].Val == ssa.Value(newParams) && rangeLoopOver(builtW[0].loop, el.Args[1].Val)
+		var rest []strPart
+		for _, w := range builtW[2:] {
+			if w.loop != nil || !(w.instr.Block() == built.Block() || w.instr.Block().Dominates(built.Block())) {
+				overKept = false
+			}
+			if n := len(rest); n > 0 && rest[n-1].Val == nil && w.part.Val == nil {
+				rest[n-1].Lit += w.part.Lit
+			} else {
+				rest = append(rest, w.part)
+			}
+		}
+		okNew = overKept && len(rest) == 3 && rest[0].Lit == `ech="` && rest[2].Lit == `"` && rest[1].Val != nil && isNewValue(rest[1].Val)
+	}
 	arg := jn.X.Args[0]
-	if arg.Op == "call" && arg.Name == "append" {
+	if built == nil && arg.Op == "call" && arg.Name == "append" {
 		c := jn.Instr.Common().Args[0].(*ssa.Call)
 		args := variadicArgs(p, c.Call.Args[1])
 		if len(args) == 1 {
